@@ -52,8 +52,8 @@ theorem readValue_encValue (tag : Nat) (name : String) (spec : VSpec) (v : AVal)
   case bool.bool b => rfl
   case date.date n => rfl
   case enum.enum ms n =>
-    simp only [okValue] at h
-    simp only [readValue, encValue, normValue, rd_eval, h]
+    simp only [okValue, Bool.and_eq_true] at h
+    simp only [readValue, encValue, normValue, rd_eval, h.1]
   case name.name s t =>
     simp only [okValue, Bool.and_eq_true] at h
     simp only [readValue, encValue, normValue, nameBody, rd_eval, kmip_tags, Nat.reduceBEq, ↓reduceIte, h]
